@@ -649,6 +649,8 @@ def lle(feed, top, bottom, top_chemical=None, efficiency=1.0, multi_stream=None)
         if rho_L is None or rho_l is not None and rho_l < rho_L:
             top_phase = 'l'
             bottom_phase = 'L'
+    if efficiency < 1.: # Compute before the outlets are overwritten (feed may also be the top outlet)
+        mixing = (1. - efficiency) / 2. * feed.mol
     top.mol[:] = ms.imol[top_phase]
     bottom.mol[:] = ms.imol[bottom_phase]
     top.T = bottom.T = feed.T
@@ -656,7 +658,6 @@ def lle(feed, top, bottom, top_chemical=None, efficiency=1.0, multi_stream=None)
     if efficiency < 1.:
         top.mol *= efficiency
         bottom.mol *= efficiency
-        mixing = (1. - efficiency) / 2. * feed.mol
         top.mol += mixing
         bottom.mol += mixing
         
